@@ -418,4 +418,88 @@ Section AdjCore.
     Qed.
   End Elementwise.
 
+
+  (* ---------------------------------------------------------------- bilinear kernels given by triples
+     forward  y[d] += a[ia] * b[ib]  into zeros, backward  ga[ia] += gy[d] * b[ib],
+     gb[ib] += gy[d] * a[ia]  over the SAME triples (conv2d_fw_impl / conv2d_bw_impl) *)
+  Definition bil_desc (sa sb sy : tshape) (ok : bool) (p : list (nat * (nat * nat))) : opdesc :=
+    {| d_args := [sa; sb]; d_rets := [sy]; d_ok := ok; d_nop := false;
+       d_fw := fun xs => [incr_run R rO radd (trip_fw R rO rmul p (nth 0 xs []) (nth 1 xs [])) (zeros (tsize sy))];
+       d_jvp := fun xs dxs =>
+         [incr_run R rO radd (trip_dfw R rO radd rmul p (nth 0 xs []) (nth 1 xs []) (nth 0 dxs []) (nth 1 dxs []))
+                   (zeros (tsize sy))];
+       d_bw := fun xs ys gys =>
+         let gy := nth 0 gys [] in
+         [incr_run R rO radd (trip_bw_x R rO rmul p gy (nth 1 xs [])) (zeros (tsize sa));
+          incr_run R rO radd (trip_bw_w R rO rmul p gy (nth 0 xs [])) (zeros (tsize sb))] |}.
+  Lemma bil_LA sa sb sy ok p :
+    (ok = true -> Forall (fun e : nat * (nat * nat) => fst e < tsize sy /\ fst (snd e) < tsize sa /\ snd (snd e) < tsize sb) p) ->
+    desc_LA (bil_desc sa sb sy ok p).
+  Proof.
+    intros Hb Hok xs dxs gys Hx Hdx Hgy. cbn [bil_desc d_args d_rets d_ok d_nop d_fw d_jvp d_bw] in *. specialize (Hb Hok).
+    apply F2_two in Hx. destruct Hx as (a & b & -> & Ha & Hbb).
+    apply F2_two in Hdx. destruct Hdx as (da & db & -> & Hda & Hdb). apply F2_one in Hgy. destruct Hgy as (gy & -> & Hgy).
+    cbn [nth]. unfold sized in *. cbv zeta. split; [|split].
+    - pose proof (triple_adjoint R rO radd rmul r_add_comm r_add_assoc r_add_0_l r_mul_comm r_mul_assoc r_distr_r r_mul_0_l
+                    p a b da db gy (zeros (tsize sa)) (zeros (tsize sb))) as H.
+      rewrite !repeat_length, Hgy in H. specialize (H Hb Hda Hdb). idot_in H.
+      cbn [OpFamily.dots]. rewrite !dot_zeros_l in H. rewrite (dot_comm gy).
+      transitivity (radd (dot (incr_run R rO radd (trip_bw_x R rO rmul p gy b) (zeros (tsize sa))) da)
+                         (dot (incr_run R rO radd (trip_bw_w R rO rmul p gy a) (zeros (tsize sb))) db)); [ring|].
+      rewrite H. ring.
+    - intros _. constructor; [|constructor; [|constructor]]; unfold sized; rewrite incr_run_length', repeat_length; try reflexivity;
+        rewrite repeat_length; [unfold trip_bw_x|unfold trip_bw_w]; rewrite Forall_map; cbn [fst];
+        (eapply Forall_impl; [|exact Hb]); cbn; tauto.
+    - constructor; [|constructor]. unfold sized. rewrite incr_run_length', repeat_length; [reflexivity|].
+      rewrite repeat_length. unfold trip_dfw. rewrite Forall_map. cbn [fst]. eapply Forall_impl; [|exact Hb]. cbn. tauto.
+  Qed.
+
+  (* ---------------------------------------------------------------- one operand, n results of one shape,
+     backward = n accumulation programs applied one after the other to the ONE gx (Split) *)
+  Fixpoint fan_acc (bw : nat -> acc) (i : nat) (gys : list (list R)) (gx : list R) : list R :=
+    match gys with [] => gx | gy :: r => fan_acc bw (S i) r (scatterR (bw i) gy gx) end.
+  Lemma fan_acc_adj (fw : nat -> mov) (bw : nat -> acc) ny m (dx : list R) : length dx = m ->
+    forall gys i gx, length gx = m -> Forall (fun gy : list R => length gy = ny) gys ->
+      (forall j, i <= j < i + length gys -> adjoint_pair (fw j) (bw j) ny m) ->
+      dot (fan_acc bw i gys gx) dx
+      = radd (dot gx dx) (dots gys (map (fun j => gatherR (fw j) ny dx) (seq i (length gys))))
+      /\ length (fan_acc bw i gys gx) = m.
+  Proof.
+    intro Hd. induction gys as [|gy r IH]; intros i gx Hgx Hall Hp; cbn [fan_acc length seq map OpFamily.dots].
+    - split; [ring|exact Hgx].
+    - pose proof (Forall_inv Hall) as Hgy. pose proof (Forall_inv_tail Hall) as Hr. cbv beta in Hgy.
+      assert (Hpi : adjoint_pair (fw i) (bw i) ny m) by (apply Hp; cbn [length]; lia).
+      assert (Hl : length (scatterR (bw i) gy gx) = m).
+      { destruct Hpi as (_ & _ & Hb). rewrite (scatter_length _ gy gx ny); [exact Hgx|]. rewrite Hgx. exact Hb. }
+      destruct (IH (S i) (scatterR (bw i) gy gx) Hl Hr) as (E & L).
+      { intros j Hj. apply Hp. cbn [length]. lia. }
+      split; [|exact L]. rewrite E.
+      pose proof (adjoint_pair_scatter R rO radd rmul r_add_comm r_add_assoc r_add_0_l r_distr_r
+                    (fw i) (bw i) ny m gy gx dx Hpi Hgx Hgy Hd) as H. idot_in H.
+      rewrite H. ring.
+  Qed.
+  Definition fan_desc (sx sy : tshape) (n : nat) (ok : bool) (fw : nat -> mov) (bw : nat -> acc) : opdesc :=
+    {| d_args := [sx]; d_rets := repeat sy n; d_ok := ok; d_nop := false;
+       d_fw := fun xs => map (fun i => gatherR (fw i) (tsize sy) (hd [] xs)) (seq 0 n);
+       d_jvp := fun xs dxs => map (fun i => gatherR (fw i) (tsize sy) (hd [] dxs)) (seq 0 n);
+       d_bw := fun xs ys gys => [fan_acc bw 0 gys (zeros (tsize sx))] |}.
+  Lemma F2_repeat (gys : list (list R)) sy : forall n, Forall2 sized gys (repeat sy n) ->
+    length gys = n /\ Forall (fun gy : list R => length gy = tsize sy) gys.
+  Proof.
+    induction gys as [|gy r IH]; intros [|n] H; inversion H; subst; [split; [reflexivity|constructor]|].
+    destruct (IH n) as (A & B); [assumption|]. split; [cbn [length]; lia|constructor; assumption].
+  Qed.
+  Lemma fan_LA sx sy n ok fw bw :
+    (ok = true -> forall i, i < n -> adjoint_pair (fw i) (bw i) (tsize sy) (tsize sx)) ->
+    desc_LA (fan_desc sx sy n ok fw bw).
+  Proof.
+    intros Hp Hok xs dxs gys Hx Hdx Hgy. cbn [fan_desc d_args d_rets d_ok d_nop d_fw d_jvp d_bw] in *. specialize (Hp Hok).
+    apply F2_one in Hdx. destruct Hdx as (dx & -> & Hdx). destruct (F2_repeat gys sy n Hgy) as (Hn & Hall). cbn [hd].
+    destruct (fan_acc_adj fw bw (tsize sy) (tsize sx) dx Hdx gys 0 (zeros (tsize sx)) (repeat_length _ _) Hall) as (E & L).
+    { intros j Hj. apply Hp. lia. }
+    cbv zeta. split; [|split].
+    - cbn [OpFamily.dots]. rewrite E, dot_zeros_l, Hn. ring.
+    - intros _. constructor; [exact L|constructor].
+    - clear. generalize 0 as o. induction n as [|n IH]; intro o; cbn [seq map repeat]; constructor; [apply gather_length|apply IH].
+  Qed.
 End AdjCore.
